@@ -50,7 +50,8 @@ def build_pegdump():
     if p.returncode != 0:
         raise RuntimeError("pegdump build failed:\n" + p.stdout[-2000:])
     exe = os.path.join(tdir, "release", "pegdump")
-    out = subprocess.run([exe, "/repo/cddl.pest"], stdout=subprocess.PIPE, stderr=subprocess.PIPE, text=True)
+    # (E2_PEST_OVERRIDE is for experiments with e2/probe.py only; registered checks never set it)
+    out = subprocess.run([exe, os.environ.get("E2_PEST_OVERRIDE", "/repo/cddl.pest")], stdout=subprocess.PIPE, stderr=subprocess.PIPE, text=True)
     if out.returncode != 0:
         raise RuntimeError("pegdump failed on /repo/cddl.pest (grammar does not compile?):\n" + out.stderr[-2000:])
     return json.loads(out.stdout)
